@@ -27,7 +27,10 @@ fn identity_for(kind: usize, k: usize, r: &mut Rng) -> Option<Vec<u8>> {
             v[0] = 0x80 + k as u8;
             Some(v)
         }
-        _ => Some(vec![0x00, k as u8, 0xFF, 0x00]), // binary with NULs
+        4 => Some(vec![0x00, k as u8, 0xFF, 0x00]), // binary with NULs
+        // an Identity property of length 0 (what libzmq sends when no routing id is
+        // configured): nothing was announced, a unique identity has to be assigned
+        _ => Some(Vec::new()),
     }
 }
 
@@ -37,12 +40,14 @@ async fn run(ctx: &mut Ctx, npeers: usize, seed: u64, gone_kind: u64, case: &Val
     let mut peers: Vec<Peer> = Vec::new();
     let mut kinds = Vec::new();
     for k in 0..npeers {
-        let kind = if k == 0 { 0 } else if k == 1 { r.range(1, 4) } else { r.below(5) };
+        let kind = if k == 0 { 0 } else if k == 1 { r.range(1, 4) } else { r.below(7).min(5) };
         let id = identity_for(kind, k, &mut r);
         let ty = if r.chance(1, 2) { "DEALER" } else { "REQ" };
         match Peer::attach(&sock, ty, id.as_deref()).await {
             Ok(p) => {
-                if let Some(want) = &id {
+                if id.as_deref() == Some(&[][..]) {
+                    ctx.count("peers_with_empty_identity_property");
+                } else if let Some(want) = &id {
                     if &p.id != want {
                         ctx.violation_with(
                             "C09/announced-identity-not-used",
@@ -75,6 +80,9 @@ async fn run(ctx: &mut Ctx, npeers: usize, seed: u64, gone_kind: u64, case: &Val
                 return;
             }
         }
+    }
+    if kinds.iter().filter(|k| **k == 5).count() >= 2 {
+        ctx.count("sockets_with_several_empty_identity_peers");
     }
     if kinds.contains(&0) && kinds.iter().any(|k| *k != 0) {
         ctx.count("announced_and_auto_in_one_socket");
@@ -296,6 +304,94 @@ async fn run(ctx: &mut Ctx, npeers: usize, seed: u64, gone_kind: u64, case: &Val
     }
 }
 
+/// A send addressed to a peer that is not reading is abandoned by the application
+/// (future dropped while the write is pending); the peer then reads again. It is still
+/// the connected peer with that identity: the next send addressed to it must reach it.
+async fn cancelled_send(ctx: &mut Ctx, seed: u64, case: &Value) {
+    let mut r = Rng::keyed(seed, &[9, 77]);
+    let mut sock = Sock::new("ROUTER", None);
+    let mut peers = Vec::new();
+    for k in 0..3usize {
+        let id = if k == 2 { None } else { Some(vec![0x61 + k as u8; 1 + k * 7]) };
+        match Peer::attach(&sock, "DEALER", id.as_deref()).await {
+            Ok(p) => peers.push(p),
+            Err(e) => {
+                ctx.inconclusive(format!("C09 attach: {e}"));
+                return;
+            }
+        }
+    }
+    let t = r.below(3);
+    let stall_after = *r.pick(&[0usize, 1, 5, 300, 9000]);
+    peers[t].conn.set_credit(Some(stall_after));
+    let size = *r.pick(&[10usize, 3000, 200_000]);
+    let mut m: Frames = vec![peers[t].id.clone()];
+    m.extend(rc::tagged(600, 0, &[size]));
+    let mut polls = 0;
+    {
+        let mut f = Managed::new(sock.send(&m));
+        loop {
+            polls += 1;
+            match f.poll_once() {
+                Poll::Ready(_) => break,
+                Poll::Pending => {}
+            }
+            sim::settle().await;
+            if polls >= 1 + r.below(4) {
+                ctx.count("sends_abandoned_while_pending");
+                break;
+            }
+        }
+    } // dropped here
+    peers[t].conn.set_credit(None);
+    sim::settle().await;
+    // inbound from that peer still labelled correctly
+    peers[t].send(&rc::tagged(t as u16, 0, &[4]));
+    match recv_now(&mut sock).await {
+        Some(Ok(got)) if got[0] == peers[t].id => {}
+        other => {
+            ctx.violation_with(
+                "C09/inbound-labelled-with-wrong-identity",
+                format!("after an abandoned send, a message of peer {t} came back as {other:?}"),
+                case.clone(),
+            );
+            return;
+        }
+    }
+    // and it is still reachable under its identity; nobody else sees anything
+    for round in 0..2u32 {
+        let before: Vec<usize> = peers.iter().map(|p| p.conn.tap_len()).collect();
+        let payload = rc::tagged(601, round, &[r.below(500)]);
+        let mut m2: Frames = vec![peers[t].id.clone()];
+        m2.extend(payload.clone());
+        let res = sim::complete(sock.send(&m2)).await;
+        let grown = peers[t].conn.tap_from(before[t]);
+        let want = rc::message(&payload);
+        let delivered = grown.len() >= want.len() && grown[grown.len() - want.len()..] == want[..];
+        if !matches!(res, Ok(Ok(()))) || !delivered {
+            ctx.violation_with(
+                "C09/connected-peer-unreachable-after-abandoned-send",
+                format!(
+                    "a send to peer {t} was abandoned while its connection was not accepting bytes (credit {stall_after}, {size}-byte body); after the peer read again, send #{round} addressed to its identity gave {res:?}, delivered={delivered}"
+                ),
+                case.clone(),
+            );
+            return;
+        }
+        for (i, p) in peers.iter().enumerate() {
+            if i != t && p.conn.tap_len() != before[i] {
+                ctx.violation_with("C09/routed-to-wrong-peer", format!("send to peer {t} wrote to peer {i}"), case.clone());
+                return;
+            }
+        }
+        ctx.count("sends_delivered_after_an_abandoned_send");
+    }
+    // whatever reached the peer is a clean frame sequence
+    if let Err(e) = peers[t].out_msgs() {
+        ctx.violation_with("C09/routed-message-altered", format!("stream to peer {t} after an abandoned send: {e}"), case.clone());
+    }
+}
+
 /// A peer that announced an identity goes away and comes back (new connection, same
 /// identity) before the socket has looked at the old connection again: the only
 /// *connected* peer with that identity is the new one.
@@ -398,6 +494,9 @@ impl Prop for C09 {
                 v.push(json!({"kind": "run", "peers": n, "seed": mix(seed ^ (k as u64) << 4 ^ n as u64), "gone": k % 4}));
             }
         }
+        for k in 0..tier.pick(300, 3000) {
+            v.push(json!({"kind": "cancelled_send", "seed": mix(seed ^ 0x9C ^ k as u64)}));
+        }
         for observed in [false, true] {
             for idlen in [1usize, 5, 16, 255] {
                 v.push(json!({"kind": "reconnect", "observed": observed, "idlen": idlen}));
@@ -407,6 +506,12 @@ impl Prop for C09 {
     }
 
     fn run(&self, case: &Value, ctx: &mut Ctx) {
+        if s(case, "kind") == "cancelled_send" {
+            ctx.eval(hash_str(&case.to_string()), true);
+            ctx.sample("cancelled_send", || case.clone());
+            sim::run(cancelled_send(ctx, u(case, "seed"), case));
+            return;
+        }
         if s(case, "kind") == "reconnect" {
             ctx.eval(hash_str(&case.to_string()), true);
             ctx.sample("reconnect", || case.clone());
@@ -429,6 +534,10 @@ impl Prop for C09 {
             ("sends_to_unknown_identity", 300),
             ("sends_to_gone_peer", 200),
             ("gone_by_fin_with_writes_still_accepted", 50),
+            ("peers_with_empty_identity_property", 100),
+            ("sockets_with_several_empty_identity_peers", 20),
+            ("sends_abandoned_while_pending", 50),
+            ("sends_delivered_after_an_abandoned_send", 200),
             ("reconnects_before_the_end_was_observed", 4),
             ("reconnects_after_the_end_was_observed", 4),
         ]
